@@ -210,6 +210,20 @@ def features(case):
         return sum(end - start for start, end in fwd) < walk
     if scene["circ"] and sum(1 for loc in scene["locs"] if spliced_over_origin(loc)) >= 2:
         feats.append("two_spliced_genes_over_origin")
+
+    def intron_bases(loc):
+        fwd = loc["parts"][::-1] if loc["strand"] == -1 else loc["parts"]
+        if len(fwd) < 2:
+            return set()
+        exons = {b for start, end in fwd for b in range(start, end)}
+        walk = (fwd[-1][1] - fwd[0][0]) % scene["L"] or scene["L"]
+        return {(fwd[0][0] + step) % scene["L"] for step in range(walk)} - exons
+    for i, loc in enumerate(scene["locs"]):
+        inside = intron_bases(loc)
+        if inside and any(inside & {b for start, end in other["parts"] for b in range(start, end)}
+                          for j, other in enumerate(scene["locs"]) if j != i):
+            feats.append("gene_in_the_intron_of_another")
+            break
     return sorted(set(feats))
 
 
